@@ -66,6 +66,8 @@ def mesh_datagroup(m, cells):
     comps = [((g * 7 + 3 * d) % 23) - 11.0 + 0.5 * d for d in range(ndim)]
     dg["velocity"] = osyris.Vector(*comps, unit="cm/s")
     dg["mass"] = osyris.Array(values=np.ones(len(cells)), unit="g")
+    dg["level"] = osyris.Array(values=np.array([c["level"] for c in cells], dtype=np.int64), unit="")
+    dg["flag"] = osyris.Array(values=(g.astype(np.int64) * 7 % 11 - 3).astype(np.int32), unit="")
     return dg
 
 
@@ -73,7 +75,8 @@ def cell_values(m, cells):
     """Model values per cell: dict name -> array (scalars) / (n, ndim) array (vectors)."""
     g = np.array([c["gid"] for c in cells], dtype=float)
     ndim = m["ndim"]
-    return {"density": g + 1.0, "temperature": 1000.0 + 3.0 * g,
+    return {"level": np.array([c["level"] for c in cells], dtype=float), "flag": (g.astype(np.int64) * 7 % 11 - 3).astype(float),
+            "density": g + 1.0, "temperature": 1000.0 + 3.0 * g,
             "velocity": np.stack([((g * 7 + 3 * d) % 23) - 11.0 + 0.5 * d for d in range(ndim)], axis=1)}
 
 
